@@ -110,12 +110,15 @@ func genC18(seed int64, tier string) []caseOut {
 		if nk > 0 || r.Intn(3) == 0 {
 			doc["publicKey"] = keys
 		}
-		if r.Intn(2) == 0 {
+		if r.Intn(2) == 0 || i%3 == 1 {
 			ss := A{}
 			for j := 0; j < 1+r.Intn(2); j++ {
 				s := validService(r, fmt.Sprintf("svc%d", j+1))
 				if r.Intn(2) == 0 {
 					s["routingKeys"] = A{"rk1"}
+				}
+				if i%3 == 1 { // members whose value is empty are members too (the DIDComm shape has "routingKeys": [])
+					s["routingKeys"], s["accept"], s["description"], s["priority"], s["properties"] = A{}, A{}, "", nil, M{}
 				}
 				ss = append(ss, s)
 			}
